@@ -243,6 +243,51 @@ def ob_simu_mass(physics, et):
     return Verdict(DISCHARGED, backend="native float run of the real simulation (1e-10)", detail=str(rec))
 
 
+def ob_thermal_embedded(et, placing):
+    """heat conduction on meshes that do not lie in their canonical position: a segment mesh inclined in the plane or in space (element dimension 1), a plate tilted
+    out of the (x, y) plane (element dimension 2): the thickness of the model multiplies K and C exactly when the ELEMENTS are two-dimensional, wherever the mesh
+    lies; capacity entries sum to rho c x measure (x thickness), K symmetric PSD with the constants as only kernel."""
+    from EasyFEA import Models, Simulations
+    th, rho, cc = 0.6, 2.5, 0.7
+
+    def build(thickness):
+        mesh = patches.two_element_mesh(et)
+        dim = mesh.dim
+        co = np.asarray(mesh.coord).copy()
+        if placing == "inplane":        # rotation about z: a segment mesh leaves the x axis (inDim 2)
+            a = 0.6
+            R = np.array([[np.cos(a), -np.sin(a), 0], [np.sin(a), np.cos(a), 0], [0, 0, 1]])
+        elif placing == "space":        # generic rotation: inDim 3
+            a, b = 0.6, 0.9
+            R = np.array([[np.cos(a), -np.sin(a), 0], [np.sin(a), np.cos(a), 0], [0, 0, 1]]) @ np.array([[1, 0, 0], [0, np.cos(b), -np.sin(b)], [0, np.sin(b), np.cos(b)]])
+        else:
+            R = np.eye(3)
+        mesh.coord = co @ R.T + np.array([0.3, -0.2, 0.1 if placing == "space" else 0.0])
+        simu = Simulations.Thermal(mesh, Models.Thermal(k=1.5, c=cc, thickness=thickness))
+        simu.rho = rho
+        K, C, _, _ = simu.Get_K_C_M_F()
+        meas = {1: lambda: mesh.length, 2: lambda: mesh.area, 3: lambda: mesh.volume}[dim]()
+        return dim, mesh.inDim, K.toarray(), C.toarray(), float(meas)
+    dim, inDim, K1, C1, meas = build(1.0)
+    _, _, Kt, Ct, _ = build(th)
+    f = th if dim == 2 else 1.0
+    rec = dict(elemType=et, placing=placing, dim=dim, inDim=int(inDim), thickness=th, sum_C=float(Ct.sum()), expected=rho * cc * meas * f)
+    if abs(Ct.sum() - rho * cc * meas * f) > 1e-10 * abs(rho * cc * meas * f):
+        raise Refuted(f"thermal simulation on a {et} mesh placed '{placing}' (element dimension {dim}, space dimension {inDim}): capacity entries sum to {Ct.sum():.6g}, expected rho c measure"
+                      f"{' thickness' if dim == 2 else ''} = {rho * cc * meas * f:.6g}", cex=rec, signature=f"thermal_embedded:{dim}:{placing}:C", replay=dict(confirmed=True, **rec))
+    eK = float(np.abs(Kt - f * K1).max() / np.abs(K1).max())
+    if eK > 1e-12:
+        raise Refuted(f"thermal simulation on a {et} mesh placed '{placing}': K(thickness {th}) differs from {f} x K(thickness 1) by {eK:.3e} (relative)", cex=rec,
+                      signature=f"thermal_embedded:{dim}:{placing}:K", replay=dict(confirmed=True, rel_err=eK, **rec))
+    w = np.linalg.eigvalsh((Kt + Kt.T) / 2)
+    asym = float(np.abs(Kt - Kt.T).max() / np.abs(Kt).max())
+    nz = int((np.abs(w) < 1e-10 * w.max()).sum())
+    if asym > 1e-12 or w.min() < -1e-10 * w.max() or nz != 1 or np.abs(Kt @ np.ones(Kt.shape[0])).max() > 1e-10 * np.abs(Kt).max():
+        raise Refuted(f"thermal K on a {et} mesh placed '{placing}': asymmetry {asym:.1e}, min eigenvalue {w.min():.3e}, {nz} zero-energy modes (expected the constants only)", cex=rec,
+                      signature=f"thermal_embedded:{dim}:{placing}:kernel", replay=dict(confirmed=True, **rec))
+    return Verdict(DISCHARGED, backend="native run", detail=str(rec))
+
+
 ELASTIC_QUICK = ["TRI3", "TRI6", "QUAD4", "QUAD8", "TETRA4", "HEXA8", "PRISM6"]
 ELASTIC_THOROUGH = ["TRI10", "TRI15", "QUAD9", "TETRA10", "PRISM15", "PRISM18", "HEXA20", "HEXA27"]
 HEAVY = {"HEXA20", "HEXA27", "PRISM18"}
@@ -357,6 +402,11 @@ def build(tier, seed):
         obs.append(Ob(f"C02.simu.mass.{physics}.{et}", ob_simu_mass, (physics, et), "X", ("EasyFEA/Simulations/_thermal.py::Thermal.Construct_local_matrix_system",
                       "EasyFEA/Simulations/_elastic.py::Elastic.Construct_local_matrix_system"), bound="2-element patch, one thickness/density value, floats",
                       clause="assembled mass/capacity sums to rho x measure x thickness (2-D) per direction and is positive definite", timeout=120))
+    for et, placing in (("SEG2", "inplane"), ("SEG3", "space"), ("SEG2", "canonical"), ("TRI3", "space"), ("QUAD4", "space"), ("TRI6", "inplane"), ("QUAD8", "space")) + \
+            ((("SEG4", "inplane"), ("SEG5", "space"), ("TRI10", "space"), ("QUAD9", "space")) if tier == "thorough" else ()):
+        obs.append(Ob(f"C02.thermal.embedded.{et}.{placing}", ob_thermal_embedded, (et, placing), "X", ("EasyFEA/Simulations/_thermal.py::Thermal.Construct_local_matrix_system",),
+                      bound="2-element patch rotated in the plane / in space, one thickness", timeout=120,
+                      clause="thickness multiplies K and C exactly when the elements are two-dimensional, wherever the mesh lies; capacity sums to rho c measure (x thickness); K symmetric PSD, kernel = constants"))
     from . import C14
     for dim in (1, 2, 3):
         for timo in (False, True):
